@@ -254,6 +254,28 @@ theorem copyThenAppends_preserves_read (h : Heap α) (s t : Slice) (bss : List (
   simp only [Heap.read, this]
   simp [copyOf, array_append_lt h _ t.arr wt.1]
 
+/-- `buf := make([]byte, 0)` followed by a run of appends: how every preimage / serialisation routine of the library
+    assembles its result (the regenerated obligation `lib_writes_only_fresh_buffers` checks that they do) -/
+def freshAppends (h : Heap α) (bss : List (List α)) : Heap α × Slice :=
+  appends (h ++ [[]]) { arr := h.length, off := 0, len := 0, cap := 0 } bss
+
+theorem fresh_wf (h : Heap α) : ({ arr := h.length, off := 0, len := 0, cap := 0 } : Slice).WF (h ++ [([] : List α)]) := by
+  simp [Slice.WF, array_append_new]
+
+theorem freshAppends_read (h : Heap α) (bss : List (List α)) :
+    (freshAppends h bss).1.read (freshAppends h bss).2 = bss.flatten := by
+  unfold freshAppends
+  rw [appends_read _ _ _ (fresh_wf h)]
+  simp [Heap.read, array_append_new]
+
+/-- the assembly touches nothing the caller can see: every slice valid before reads the same afterwards -/
+theorem freshAppends_preserves_read (h : Heap α) (bss : List (List α)) (t : Slice) (wt : t.WF h) :
+    (freshAppends h bss).1.read t = h.read t := by
+  unfold freshAppends
+  have := appends_frame h.length (h ++ [[]]) { arr := h.length, off := 0, len := 0, cap := 0 } bss (fresh_wf h)
+    (by simp) t.arr wt.1
+  simp only [Heap.read, this, array_append_lt h _ t.arr wt.1]
+
 /-- Witness for the header-only copy (`s := *prefix`): the prefix is the first 2 cells of a 6-cell script (capacity 6, as
     `Slice(0, 25)` of a parsed inscription has the capacity of the whole script); appending 3 bytes through it overwrites
     cells 2..4 of the script it was cut from. -/
